@@ -123,7 +123,7 @@ def _reach_avoiding(body, start, target, avoid):
 
 
 def explore(body, start_bb, carriers, stop_at=None, track_ret=True, limit=6000, inject=None,
-            avoid=(), du=None, facts=None):
+            avoid=(), du=None, facts=None, call_results=None):
     """carriers: dict local -> Carrier (state at entry of start_bb). Returns Result_.
     With `du` (a DefUse) the exploration is also sensitive to repeated tests of the same
     immutable enum value: once a switch on its discriminant took an arm, later switches on the
@@ -303,6 +303,8 @@ def explore(body, start_bb, carriers, stop_at=None, track_ret=True, limit=6000, 
             if "core::ops::FromResidual" in name and name.endswith("::from_residual"):
                 fam = "Result" if "core::result::Result" in name.split(" as ")[0] else "Option"
                 new = E(fam, "Err" if fam == "Result" else "None")
+            if call_results and bb in call_results:
+                new = call_results[bb]          # the caller assumes this call's outcome
             for a in t.args:
                 if a.kind == "move" and not a.place.proj:
                     car.pop(a.place.local, None)
